@@ -158,8 +158,11 @@ func (e *Engine) entryEnv(fr *Frame) map[string]Val {
 // (or hit an object allocated during the call).
 func (e *Engine) frameCheckStore(st *State, fr *Frame, l *Loc, in ssa.Instruction) {
 	root := st.frames[0]
-	if root.spec == nil || !root.spec.HasMod {
+	if root.spec == nil || root.spec.ModAny {
 		return
+	}
+	if _, guarded := e.guardOfLoc(l); guarded {
+		return // lock-guarded state: governed by the lock discipline and the atomic clauses, not by the frame
 	}
 	switch l.Kind {
 	case LElem:
@@ -207,7 +210,7 @@ func (e *Engine) tryRegion(ctx *specCtx, m Expr) (r region, ok bool) {
 
 func (e *Engine) frameCheckRegion(st *State, fr *Frame, elem types.Type, obj, lo, hi *Term, in ssa.Instruction) {
 	root := st.frames[0]
-	if root.spec == nil || !root.spec.HasMod {
+	if root.spec == nil || root.spec.ModAny {
 		return
 	}
 	ctx := &specCtx{e: e, st: st, env: e.entryEnv(root), heaps: st.old, oldHeaps: st.old, pkg: root.fn.Pkg}
